@@ -34,6 +34,50 @@ fn run(ctx: &Ctx) {
     ctx.run_tape("dtls_parsed", dtls_parsed, ctx.pick(80_000, 200_000), 400);
     ctx.run_tape("constructed", constructed, ctx.pick(50_000, 300_000), 300);
     ctx.run_tape("server", server, ctx.pick(80_000, 200_000), 200);
+    // the accessors in a process that has not touched the registry yet: one fresh child process per registered id (that id is the first
+    // thing the child looks up), followed by an unlisted id and the same registered id again. State kept between lookups (a cache, a
+    // lazily built table) whose initial value collides with a real id shows up here and, at best by luck, nowhere else
+    ctx.run_fn("fresh_process", true, "one fresh process per row of the list: hello accessors on [id], then [unlisted, id], through cipher_suites / get_ciphers / get_cipher / get_ciphersuite", |obs| {
+        let tb = super::c12::tabs()?;
+        let exe = std::env::current_exe().map_err(|e| Fail { sig: "harness:current-exe".into(), msg: format!("{}", e) })?;
+        let unlisted: Vec<u16> = (0..=0xffffu16).filter(|v| !tb.file.iter().any(|r| r.id == *v)).take(4000).collect();
+        let results: Vec<R> = std::thread::scope(|sc| {
+            let hs: Vec<_> = (0..8usize)
+                .map(|w| {
+                    let (exe, unlisted) = (&exe, &unlisted);
+                    sc.spawn(move || -> R {
+                        for (k, r) in tb.file.iter().enumerate() {
+                            if k % 8 != w {
+                                continue;
+                            }
+                            let miss = unlisted[(r.id as usize * 31 + 7) % unlisted.len()];
+                            let args = [format!("{:04x}", r.id), format!("{:04x}", miss), format!("{:04x}", r.id)];
+                            let o = output_with_progress(std::process::Command::new(exe).arg("probe-registry").args(&args), 600, true).map_err(|e| Fail { sig: "harness:probe-registry".into(), msg: format!("{}", e) })?;
+                            let text = String::from_utf8_lossy(&o.stdout).to_string();
+                            if !o.status.success() {
+                                return fail(format!("C15:fresh-process:crash:{:04x}", r.id), format!("a fresh process looking up {:04x} first ended with {}: {}", r.id, o.status, trunc(&String::from_utf8_lossy(&o.stderr))));
+                            }
+                            let lines: Vec<&str> = text.lines().collect();
+                            let want = [format!("{:04x}={}", r.id, r.name), format!("{:04x}=none", miss), format!("{:04x}={}", r.id, r.name)];
+                            for (i, w) in want.iter().enumerate() {
+                                let got = lines.get(i).copied().unwrap_or("<no answer>");
+                                ensure!(got.split(' ').all(|route| route == w) && !got.is_empty(), format!("C15:fresh-process:{}", if i == 0 { "first-lookup" } else if i == 1 { "unlisted" } else { "after-a-miss" }), "fresh process, lookups {:?}: lookup {} answered `{}` (one entry per accessor), expected `{}` from each", args, i + 1, got, w);
+                            }
+                        }
+                        Ok(())
+                    })
+                })
+                .collect();
+            hs.into_iter().map(|h| h.join().unwrap_or_else(|_| fail("harness:probe-thread", "probe thread panicked"))).collect()
+        });
+        for r in results {
+            r?;
+        }
+        obs.evals_add(3 * tb.file.len() as u64);
+        obs.nontrivial(tb.file.len() as u64);
+        obs.sample(json!({"fresh_processes": tb.file.len(), "lookups_per_process": 3, "accessors": ["cipher_suites", "get_ciphers", "get_cipher", "get_ciphersuite", "from_id"]}));
+        Ok(())
+    });
 }
 
 fn same(a: &[u8], b: &[u8]) -> bool {
@@ -234,6 +278,39 @@ fn constructed(t: &mut Tape, obs: &mut Obs) -> R {
         ensure!(ch.get_version().0 == v, "C15:new:get_version", "get_version() = {:#06x}, constructed with {:#06x}", ch.get_version().0, v);
         check_trait(&ch, v, &random, sid.as_deref(), &ciphers, &comp, ext.as_deref(), "constructed")?;
         got_suites(&ch.get_ciphers(), &ciphers, "constructed:get_ciphers")?;
+        // the same accessors by method syntax on the concrete type, through the trait by its full path and through a trait object: one
+        // value has one rand_time() / rand_bytes() / ..., whichever way the call is dispatched (for every random length)
+        {
+            let via_dyn: &dyn ClientHello = &ch;
+            let m = (ch.rand_time(), ch.rand_bytes(), ch.version().0, ch.random(), ch.session_id(), ch.ext(), ch.ciphers().len(), ch.comp().len(), ch.cipher_suites().len());
+            let f = (ClientHello::rand_time(&ch), ClientHello::rand_bytes(&ch), ClientHello::version(&ch).0, ClientHello::random(&ch), ClientHello::session_id(&ch), ClientHello::ext(&ch), ClientHello::ciphers(&ch).len(), ClientHello::comp(&ch).len(), ClientHello::cipher_suites(&ch).len());
+            let d = (via_dyn.rand_time(), via_dyn.rand_bytes(), via_dyn.version().0, via_dyn.random(), via_dyn.session_id(), via_dyn.ext(), via_dyn.ciphers().len(), via_dyn.comp().len(), via_dyn.cipher_suites().len());
+            ensure!(m == f && f == d, "C15:constructed:dispatch", "the accessors of one ClientHello (random of {} bytes: {}) answer differently by method syntax, by trait path and through a trait object: {:?} / {:?} / {:?}", random.len(), hex_short(&random), (m.0, m.1.len(), m.2), (f.0, f.1.len(), f.2), (d.0, d.1.len(), d.2));
+        }
+        // the public fields of a constructed value may be edited, and its vectors may have spare capacity: the accessors follow the
+        // contents (len), nothing else
+        {
+            let spare = [1usize, 5, 64][ciphers.len() % 3];
+            let mut cv: Vec<TlsCipherSuiteID> = Vec::with_capacity(ciphers.len() + spare);
+            cv.extend(ciphers.iter().map(|c| TlsCipherSuiteID(*c)));
+            let mut pv: Vec<TlsCompressionID> = Vec::with_capacity(comp.len() + spare);
+            pv.extend(comp.iter().map(|c| TlsCompressionID(*c)));
+            let lit = TlsClientHelloContents { version: TlsVersion(v), random: &random, session_id: sid.as_deref(), ciphers: cv, comp: pv, ext: ext.as_deref() };
+            check_trait(&lit, v, &random, sid.as_deref(), &ciphers, &comp, ext.as_deref(), "literal-with-spare-capacity")?;
+            got_suites(&lit.get_ciphers(), &ciphers, "literal-with-spare-capacity:get_ciphers")?;
+            let mut edited = TlsClientHelloContents::new(v, &random, sid.as_deref(), ciphers.iter().map(|c| TlsCipherSuiteID(*c)).collect(), comp.iter().map(|c| TlsCompressionID(*c)).collect(), ext.as_deref());
+            let mut want = ciphers.clone();
+            edited.ciphers.push(TlsCipherSuiteID(0x1301));
+            want.push(0x1301);
+            if want.len() > 2 {
+                edited.ciphers.remove(0);
+                want.remove(0);
+                edited.ciphers.truncate(want.len() - 1);
+                want.truncate(want.len() - 1);
+            }
+            check_trait(&edited, v, &random, sid.as_deref(), &want, &comp, ext.as_deref(), "edited-after-new")?;
+            got_suites(&edited.get_ciphers(), &want, "edited-after-new:get_ciphers")?;
+        }
         // DTLS hello built from the same slices (a distinct cookie must never leak into random())
         let cookie = [0xc0u8, 0x0c, 0x1e, 0x55, 0xaa];
         let d = DTLSClientHello { version: TlsVersion(v), random: &random, session_id: sid.as_deref(), cookie: &cookie, ciphers: ciphers.iter().map(|c| TlsCipherSuiteID(*c)).collect(), comp: comp.iter().map(|c| TlsCompressionID(*c)).collect(), ext: ext.as_deref() };
@@ -290,4 +367,21 @@ fn server(t: &mut Tape, obs: &mut Obs) -> R {
         }
         Ok(())
     })?
+}
+
+/// child side of `fresh_process`: for each id on the command line (hex), in order, what every accessor says, on one line
+pub fn probe_registry(ids: &[String]) {
+    let random = [7u8; 32];
+    for a in ids {
+        let id = u16::from_str_radix(a, 16).unwrap_or(0);
+        let name = |s: Option<&TlsCipherSuite>| s.map_or("none".to_string(), |c| c.name.to_string());
+        let ch = TlsClientHelloContents::new(0x0303, &random, None, vec![TlsCipherSuiteID(id)], vec![TlsCompressionID(0)], None);
+        let a1 = name(ClientHello::cipher_suites(&ch)[0]);
+        let a2 = name(ch.get_ciphers()[0]);
+        let sh = TlsServerHelloContents::new(0x0303, &random, None, id, 0, None);
+        let a3 = name(sh.get_cipher());
+        let a4 = name(TlsCipherSuiteID(id).get_ciphersuite());
+        let a5 = name(TlsCipherSuite::from_id(id));
+        println!("{:04x}={} {:04x}={} {:04x}={} {:04x}={} {:04x}={}", id, a1, id, a2, id, a3, id, a4, id, a5);
+    }
 }
